@@ -84,8 +84,8 @@ def balanced(s):
 
 def strip(n):
     """Skip wrappers that carry no semantics."""
-    while n['kind'] in ('ParenExpr', 'ExprWithCleanups', 'MaterializeTemporaryExpr', 'CXXBindTemporaryExpr',
-                        'ConstantExpr', 'CXXFunctionalCastExpr_noop') and kids(n):
+    while (n['kind'] in ('ParenExpr', 'ExprWithCleanups', 'MaterializeTemporaryExpr', 'CXXBindTemporaryExpr',
+                         'ConstantExpr') and kids(n)) or (n['kind'] in ('ParenListExpr', 'InitListExpr') and len(kids(n)) == 1):
         n = kids(n)[0]
     return n
 
@@ -110,6 +110,9 @@ class Fn:
         self.skip_locals = set(skip_locals)
         self.result_vars = []
         self.calls = {}
+        self.dep_calls = {}      # normalised source text of a dependent call -> integer variable
+        self.auto_params = []
+        self._declared = set()
         self.ret_scalar = False
         self.literals = []       # numeric literals met, in source order
 
@@ -162,45 +165,110 @@ class Fn:
         fv = self.int_free_vars(n)
         return '(orc %s [%s])' % (coq_string(txt), '; '.join(self.cur(v) for v in fv))
 
+    def int_like(self, n):
+        """n is an integer/boolean expression over tracked integers, literals and mapped dimension calls."""
+        n = strip(n)
+        k = n['kind']
+        if self.mapped(n) is not None:
+            return True
+        if k in ('IntegerLiteral', 'CXXBoolLiteralExpr'):
+            return True
+        if k == 'DeclRefExpr':
+            rd = n.get('referencedDecl') or {}
+            if rd.get('kind') == 'EnumConstantDecl':
+                return True
+            return self.types.get(rd.get('name')) in ('Z', 'bool')
+        if k == 'MemberExpr':
+            return bool(kids(n)) and kids(n)[0]['kind'] == 'CXXThisExpr' and self.types.get(n.get('name')) in ('Z', 'bool')
+        if k in ('ImplicitCastExpr', 'CStyleCastExpr', 'CXXStaticCastExpr', 'CXXFunctionalCastExpr'):
+            if n.get('castKind') in ('IntegralCast', 'LValueToRValue', 'NoOp', 'IntegralToBoolean') or is_dependent(n):
+                return (is_int_type(qual(n)) or is_enum(qual(n)) or is_dependent(n)) and self.int_like(kids(n)[-1])
+            return False
+        if k == 'BinaryOperator':
+            return n['opcode'] in ('+', '-', '*', '/', '%', '<', '<=', '>', '>=', '==', '!=', '&&', '||', '&', '|', '^', '<<', '>>') \
+                and all(self.int_like(c) for c in kids(n))
+        if k == 'UnaryOperator':
+            return n['opcode'] in ('-', '+', '!') and self.int_like(kids(n)[0])
+        if k == 'ConditionalOperator':
+            return all(self.int_like(c) for c in kids(n))
+        if k == 'CallExpr':
+            callee = strip_casts(kids(n)[0])
+            nm = (callee.get('referencedDecl') or {}).get('name') if isinstance(callee.get('referencedDecl'), dict) else callee.get('name')
+            if nm in ('min', 'max') or nm in self.calls:
+                return all(self.int_like(c) for c in kids(n)[1:])
+            return False
+        if k == 'CXXOperatorCallExpr':
+            ks = kids(n)
+            callee = strip_casts(ks[0])
+            if (callee.get('referencedDecl') or {}).get('name') == 'operator[]':
+                try:
+                    v = self.lvalue_name(strip_casts(ks[1]))
+                except TranslationError:
+                    return False
+                return self.types.get(v) == 'list Z' and self.int_like(ks[2])
+        return False
+
     def cond(self, n):
         """boolean expression"""
         n = strip(n)
         k = n['kind']
-        if k == 'ImplicitCastExpr':
-            ck = n.get('castKind')
-            if ck == 'IntegralToBoolean':
-                return '(negb (%s =? 0))' % self.expr(kids(n)[0])
-            return self.cond(kids(n)[0])
-        if is_dependent(n) or self._mentions_dependent(n):
+        if k == 'BinaryOperator' and n['opcode'] in ('&&', '||'):
+            a, b = kids(n)
+            if self.int_like(a) or self.int_like(b):
+                return '(%s %s %s)' % (self.cond(a), n['opcode'], self.cond(b))
+        if not self.int_like(n):
             return self.oracle(n)
+        if k in ('ImplicitCastExpr', 'CStyleCastExpr', 'CXXStaticCastExpr', 'CXXFunctionalCastExpr'):
+            if n.get('castKind') == 'IntegralToBoolean':
+                return '(negb (%s =? 0))' % self.expr(kids(n)[-1])
+            return self.cond(kids(n)[-1])
         if k == 'BinaryOperator':
             op = n['opcode']
             a, b = kids(n)
-            if op == '&&':
-                return '(%s && %s)' % (self.cond(a), self.cond(b))
-            if op == '||':
-                return '(%s || %s)' % (self.cond(a), self.cond(b))
             if op in ('<', '<=', '>', '>=', '==', '!='):
-                ta = qual(strip_casts(a))
-                if not (is_int_type(qual(a)) or 'SortRule' in qual(a) or 'enum' in qual(a) or is_enum(qual(a))):
-                    return self.oracle(n)
                 x, y = self.expr(a), self.expr(b)
                 m = {'<': '(%s <? %s)', '<=': '(%s <=? %s)', '>': '(%s >? %s)', '>=': '(%s >=? %s)',
                      '==': '(%s =? %s)', '!=': '(negb (%s =? %s))'}[op]
                 return m % (x, y)
+            return '(negb (%s =? 0))' % self.expr(n)
         if k == 'UnaryOperator' and n['opcode'] == '!':
             return '(negb %s)' % self.cond(kids(n)[0])
         if k == 'CXXBoolLiteralExpr':
             return 'true' if n.get('value') else 'false'
-        if k == 'DeclRefExpr' and self.types.get(n['referencedDecl']['name']) == 'bool':
-            return self.cur(n['referencedDecl']['name'])
+        if k in ('DeclRefExpr', 'MemberExpr'):
+            nm = self.lvalue_name(n)
+            if self.types.get(nm) == 'bool':
+                return self.cur(nm)
+            return '(negb (%s =? 0))' % self.expr(n)
         if k == 'ConditionalOperator':
             c, a, b = kids(n)
             return '(if %s then %s else %s)' % (self.cond(c), self.cond(a), self.cond(b))
-        return self.oracle(n)
+        return '(negb (%s =? 0))' % self.expr(n)
+
+    def mapped(self, n):
+        if not self.dep_calls or n.get('kind') not in ('CallExpr', 'CXXMemberCallExpr', 'CXXDependentScopeMemberExpr', 'MemberExpr'):
+            return None
+        txt = re.sub(r'\s+', '', self.A.src_text(n))
+        if callable(self.dep_calls):
+            v = self.dep_calls(txt)
+        else:
+            v = self.dep_calls.get(txt)
+        if v is not None and v not in self.types:
+            self.types[v] = 'Z'
+            self.ver[v] = 0
+            self._declared.add(v)
+            self.auto_params.append(v)
+        return v
+
+    def walk_unmapped(self, n):
+        if self.mapped(n) is not None:
+            return
+        yield n
+        for c in kids(n):
+            yield from self.walk_unmapped(c)
 
     def _mentions_dependent(self, n):
-        for x in walk_expr(n):
+        for x in self.walk_unmapped(n):
             if is_dependent(x):
                 return True
             q = qual(x)
@@ -212,6 +280,9 @@ class Fn:
         """integer expression -> Gallina Z term"""
         n = strip(n)
         k = n['kind']
+        mv = self.mapped(n)
+        if mv is not None:
+            return self.cur(mv)
         if k in ('ImplicitCastExpr', 'CStyleCastExpr', 'CXXStaticCastExpr', 'CXXFunctionalCastExpr'):
             inner = kids(n)[-1]
             ck = n.get('castKind')
@@ -395,11 +466,15 @@ class Fn:
             tgt = strip(kids(s)[0])
             if tgt['kind'] == 'CXXOperatorCallExpr':       # v[e] = x
                 return self.vec_store(tgt, kids(s)[1], s, nxt)
-            if is_dependent(s) or tgt['kind'] not in ('DeclRefExpr', 'MemberExpr'):
+            if tgt['kind'] not in ('DeclRefExpr', 'MemberExpr'):
                 return nxt()                              # float/matrix statement: outside the integer model
+            if tgt['kind'] == 'MemberExpr' and not (kids(tgt) and kids(tgt)[0]['kind'] == 'CXXThisExpr'):
+                return nxt()
             nm = self.lvalue_name(tgt)
             if self.types.get(nm) not in ('Z', 'bool'):
                 return nxt()
+            if self.types[nm] == 'Z' and not self.int_like(kids(s)[1]):
+                raise TranslationError('integer `%s` assigned from a non-integer expression `%s` in %s' % (nm, self.A.src_text(kids(s)[1]), self.name))
             if self.types[nm] == 'bool':
                 e = self.cond(kids(s)[1])
                 return 'let %s := %s in\n%s' % (self.fresh(nm), e, nxt())
@@ -677,7 +752,6 @@ class Fn:
     def translate_block(self, stmts, pars, result_vars, final=None):
         """Translate a list of statements of self.fn as a function of `pars`
         [(name, type)] returning the tuple of `result_vars` (or `final()`)."""
-        self._declared = set()
         for nm, vt in pars:
             self.types[nm] = vt
             self._declared.add(nm)
@@ -685,7 +759,7 @@ class Fn:
         self.result_vars = []
         k = final or (lambda: self.ret(self.tup([self.cur(v) for v in result_vars])))
         term = self.block(stmts, k)
-        sig = ' '.join('(%s : %s)' % p for p in pars)
+        sig = ' '.join('(%s : %s)' % p for p in ([(v, 'Z') for v in self.auto_params] + list(pars)))
         orc = ' (orc : string -> list Z -> bool)' if self.uses_orc else ''
         txt = '\n\n'.join(self.loops)
         if txt:
@@ -694,7 +768,6 @@ class Fn:
         return txt
 
     def translate(self, result_type=None, ctor_inits=False):
-        self._declared = set()
         ps = []
         for p in params(self.fn):
             nm = p.get('name')
@@ -740,7 +813,7 @@ class Fn:
         b = body(self.fn)
         rt = result_type
         term = self.block(kids(b), lambda: self.ret('tt'))
-        allp = [(m, 'Z') for m in self.member_params] + list(self.extra_params) + ps
+        allp = [(v, 'Z') for v in self.auto_params] + [(m, 'Z') for m in self.member_params] + list(self.extra_params) + ps
         sig = ' '.join('(%s : %s)' % p for p in allp)
         orc = ' (orc : string -> list Z -> bool)' if self.uses_orc else ''
         if self.ret_scalar:
